@@ -170,16 +170,25 @@ Section Manip.
   (* the unit shells without the seen-set: one per occurrence of a primitive *)
   Definition unc_seg_shell (s : shell) : list shell := map (unit_shell s) (exps s).
 
-  (* seen_primitives: (tuple(am), float(exponent)) of the primitives already emitted for this element *)
-  Definition prim := (list Z * N)%type.
-  Definition prim_seen (a : list Z) (x : N) (seen : list prim) : bool :=
-    existsb (fun p => andb (list_eqb Z.eqb (fst p) a) (same (snd p) x)) seen.
+  (* seen_primitives: (am, float(exponent)) for every single momentum am already emitted with that primitive for this element;
+     a primitive of a combined shell is emitted for the momenta that are still missing (new_am), not at all if none is *)
+  Definition prim := (Z * N)%type.
+  Definition prim_seen (l : Z) (x : N) (seen : list prim) : bool :=
+    existsb (fun p => andb (Z.eqb (fst p) l) (same (snd p) x)) seen.
+  Definition unit_shell_am (s : shell) (ams : list Z) (x : N) : shell :=
+    mkShell (if Nat.eqb (List.length ams) (List.length (am s)) then ftype s else split_function_type (ftype s) ams)
+            (region s) ams [x]
+            (map (fun _ => [one_lit]) ams).
   Fixpoint unc_seg_prims (s : shell) (xs : list N) (seen : list prim) : list shell * list prim :=
     match xs with
     | [] => ([], seen)
     | x :: t =>
-      if prim_seen (am s) x seen then unc_seg_prims s t seen
-      else let '(out, seen') := unc_seg_prims s t (seen ++ [(am s, x)]) in (unit_shell s x :: out, seen')
+      let new_am := filter (fun l => negb (prim_seen l x seen)) (am s) in
+      match new_am with
+      | [] => unc_seg_prims s t seen
+      | _ => let '(out, seen') := unc_seg_prims s t (seen ++ map (fun l => (l, x)) new_am) in
+             (unit_shell_am s new_am x :: out, seen')
+      end
     end.
   Fixpoint unc_seg_shells (shs : list shell) (seen : list prim) : list shell :=
     match shs with
